@@ -309,3 +309,58 @@ class ImmutabilityGuard:
     def drain(self):
         ev, self.events = self.events, []
         return ev
+
+
+class UninitSeam:
+    """Uninitialised memory is an environment answer: while active, np.empty / np.empty_like / torch.empty / torch.empty_like
+    (looked up through the module namespaces, as numqi does) return buffers filled with a harness-chosen value instead of
+    whatever the allocator recycles. Code that fully overwrites its buffers is unaffected; code whose result depends on
+    uninitialised memory becomes deterministic and visible (NaN, or a difference between two fills)."""
+
+    def __init__(self, fill=float('nan'), int_fill=-(2**31) + 12345):
+        self.fill = fill
+        self.int_fill = int_fill
+        self.calls = 0
+
+    def _fill_np(self, a):
+        if a.size and a.dtype.kind in 'fc':
+            a[...] = self.fill
+        elif a.size and a.dtype.kind in 'iu':
+            a[...] = self.int_fill if a.dtype.kind == 'i' and a.dtype.itemsize >= 4 else 113
+        return a
+
+    def __enter__(self):
+        import torch
+        seam = self
+        self._saved = (np.empty, np.empty_like, torch.empty, torch.empty_like)
+        r_empty, r_empty_like, t_empty, t_empty_like = self._saved
+
+        def empty(*a, **k):
+            seam.calls += 1
+            return seam._fill_np(r_empty(*a, **k))
+
+        def empty_like(*a, **k):
+            seam.calls += 1
+            return seam._fill_np(r_empty_like(*a, **k))
+
+        def _fill_t(t):
+            if t.numel() and (t.is_floating_point() or t.is_complex()):
+                t.fill_(seam.fill)
+            elif t.numel() and t.dtype != torch.bool:
+                t.fill_(113)
+            return t
+
+        def tempty(*a, **k):
+            seam.calls += 1
+            return _fill_t(t_empty(*a, **k))
+
+        def tempty_like(*a, **k):
+            seam.calls += 1
+            return _fill_t(t_empty_like(*a, **k))
+        np.empty, np.empty_like, torch.empty, torch.empty_like = empty, empty_like, tempty, tempty_like
+        return self
+
+    def __exit__(self, *exc):
+        import torch
+        np.empty, np.empty_like, torch.empty, torch.empty_like = self._saved
+        return False
